@@ -450,17 +450,21 @@ def norm_obs(obs, ce, rm):
     return "E:%s:%d:%s" % (c["name"], v["code"], (v["cstr"] if c["string_fn"] else "-").replace(" ", "_"))
 
 
+SENDCOPY_FN = {"sendcopy": "iox2_publisher_send_copy", "csendcopy": "iox2_client_send_copy", "asendcopy": "iox2_active_request_send_copy"}
+
+
 def sendcopy_wrong_enum(rust_obs, c_obs, ce):
-    """rust_obs = E:iox2_send_error_e:<k>:loan_error_<x> ; c_obs = E:iox2_send_error_e:<j>:<...> where j is the
-    discriminant of the loan error <x> in iox2_loan_error_e"""
-    m = re.match(r"^E:iox2_send_error_e:\d+:loan_error_(.*)$", rust_obs)
-    n = re.match(r"^E:iox2_send_error_e:(\d+):", c_obs)
+    """rust_obs = E:<iox2_send_error_e|iox2_request_send_error_e>:<k>:loan_error_<x> ; c_obs = E:<same enum>:<j>:<...>
+    where j is the discriminant of the loan error <x> in iox2_loan_error_e (the function returned
+    LoanError::into_c_int() although it documents the send error enum)"""
+    m = re.match(r"^E:(iox2_send_error_e|iox2_request_send_error_e):\d+:loan_error_(.*)$", rust_obs)
+    n = re.match(r"^E:(iox2_send_error_e|iox2_request_send_error_e):(\d+):", c_obs)
     if not m or not n:
         return False
     want = {"exceeds_max_loans": "EXCEEDS_MAX_LOANED_SAMPLES", "out_of_memory": "OUT_OF_MEMORY",
-            "exceeds_max_loan_size": "EXCEEDS_MAX_LOAN_SIZE", "internal_failure": "INTERNAL_FAILURE"}.get(m.group(1))
+            "exceeds_max_loan_size": "EXCEEDS_MAX_LOAN_SIZE", "internal_failure": "INTERNAL_FAILURE"}.get(m.group(2))
     for v in ce.get("iox2_loan_error_e", {}).get("variants", []):
-        if v["name"] == want and v["code"] == int(n.group(1)):
+        if v["name"] == want and v["code"] == int(n.group(2)):
             return True
     return False
 
@@ -498,10 +502,10 @@ def part_b(ctx, tab):
     ce = {c["name"]: c for c in tab["cenums"]}
     rm = {m["name"]: {l["name"]: l for l in m["leaves"]} for m in tab["rmaps"]}
     nsh = 16
-    ncases = 4000 if ctx.thorough() else 320
+    ncases = 2400 if ctx.thorough() else 160
     maxops = 80 if ctx.thorough() else 40
     jobs = []
-    for kind in ("pubsub", "event"):
+    for kind in ("pubsub", "event", "reqres"):
         for sh_i in range(nsh):
             jobs.append((kind, [exe, kind, str(ctx.seed), str(sh_i), str(nsh), str(ncases), str(maxops)]))
 
@@ -546,8 +550,8 @@ def part_b(ctx, tab):
                     # known class: iox2_publisher_send_copy / send_slice_copy return the code of
                     # iox2_loan_error_e where iox2_send_error_e is documented (state afterwards equal)
                     for i, (p_, q_) in enumerate(zip(a, b)):
-                        if p_ != q_ and p_[0] == q_[0] and p_[0].startswith("sendcopy") and sendcopy_wrong_enum(p_[1], q_[1], ce):
-                            wrong_enum[(p_[1], q_[1])] += 1
+                        if p_ != q_ and p_[0] == q_[0] and p_[0].split()[0] in SENDCOPY_FN and sendcopy_wrong_enum(p_[1], q_[1], ce):
+                            wrong_enum[(SENDCOPY_FN[p_[0].split()[0]], p_[1], q_[1])] += 1
                             b[i] = p_
                     if a != b:
                         stats["mismatches"] += 1
@@ -568,14 +572,15 @@ def part_b(ctx, tab):
                                           {"case": c["hdr"], "mode": m, "leftover": f,
                                            "stream": ["%s = %s" % (x, z) for x, _, z in c["modes"].get(m, [])],
                                            "how_to_rerun": " ".join(argv)})
-    if wrong_enum:
-        ctx.violation("iox2_publisher_send_copy / iox2_publisher_send_slice_copy return a code of iox2_loan_error_e although iox2_send_error_e is documented: "
-                      "a failed loan is reported to the C caller as another error: %s" % (
-                          ["Rust %s -> C caller reads %s" % (k[0], k[1]) for k in sorted(wrong_enum)]),
-                      {"kind": "wrong C enum", "where": "iceoryx2-ffi/c/src/api/publisher.rs send_copy()/send_slice_copy(): `Err(e) => return e.into_c_int()` with e: LoanError",
-                       "occurrences": {"%s / %s" % k: v for k, v in wrong_enum.items()},
-                       "how_to_rerun": "%s pubsub %d 0 1 400 60   # look for sendcopy ops" % (exe, ctx.seed)},
-                      key="ffi-wrong-enum:iox2_publisher_send_copy")
+    for fn in sorted({k[0] for k in wrong_enum}):
+        occ = {k: v for k, v in wrong_enum.items() if k[0] == fn}
+        ctx.violation("%s returns a code of iox2_loan_error_e when its internal loan fails, although it documents/returns the send error enum otherwise: "
+                      "the C caller reads another error: %s" % (fn, ["Rust %s -> C caller reads %s" % (k[1], k[2]) for k in sorted(occ)]),
+                      {"kind": "wrong C enum", "function": fn,
+                       "where": "iceoryx2-ffi/c/src/api/{publisher,client,active_request}.rs send_copy()/send_slice_copy(): `Err(e) => return e.into_c_int()` with e: LoanError",
+                       "occurrences": {"%s / %s" % (k[1], k[2]): v for k, v in occ.items()},
+                       "how_to_rerun": "%s pubsub|reqres %d 0 1 400 60   # look for sendcopy / csendcopy / asendcopy ops" % (exe, ctx.seed)},
+                      key="ffi-wrong-enum:" + fn)
     ctx.cov["part_b"] = {
         "what": "translation validation: every generated program executed once per mode; streams compared line by line against mode RR",
         "stats": stats, "modes": dict(modes_seen), "op_distribution": dict(opdist), "error_kinds_seen": dict(errdist),
@@ -585,14 +590,23 @@ def part_b(ctx, tab):
                    "up to 3 publishers and 4 subscribers (service limits 2 and 3, so creation failures occur), refused subscriber buffer sizes, "
                    "open/create of the same service with deviating requirements (9 kinds: incompatible types, min buffer, publishers, subscribers, borrowed samples, overflow, not existing, already exists, plain open); "
                    "event: notify/notify_with_custom_event_id/try_wait, 1-2 notifiers, 1-2 listeners, extra ports beyond the limits, 6 kinds of deviating open/create; "
+                   "request-response (runtime type details for request and response independently, fixed and dynamic): client loan/write/send/send_copy, server receive/has_requests, "
+                   "active request loan/write/send/send_copy/is_connected/drop, pending response receive/has_response/is_connected/drop, response release, 1 client + 1 server; "
                    "handle release: port counts after every drop, node listing + re-create of the service after all drops",
-        "not_covered": "request-response, blackboard, waitset, attributes, blocking/timed waits, deadlines, resizable (dynamic allocation strategy) segments, "
+        "not_covered": "blackboard, waitset, typed Rust API for request-response and user headers in request-response, several clients/servers, fire-and-forget, attributes, blocking/timed waits, deadlines, resizable (dynamic allocation strategy) segments, "
                        "cross-process participants (both sides live in one process), C++/Python bindings",
         "samples": samples,
     }
 
 
 def run(ctx):
+    if getattr(ctx, "replay", None):
+        try:
+            r = json.load(open(ctx.replay))
+            ctx.log("replay %s: %s" % (ctx.replay, r.get("what")))
+            ctx.log("re-run: %s" % r.get("how_to_rerun", "./check C18 quick (part A rows are re-derived from /repo on every run)"))
+        except Exception as ex:
+            ctx.log("cannot read replay file: %r" % (ex,))
     tab = part_a(ctx)
     ctx.log("translator + table diff done")
     proof_ok = vlib.proof_stage(ctx)
